@@ -35,13 +35,13 @@ EST = D("1e-3")
 class Side:
     """one orientation: a real UniLpMarket + Broker"""
 
-    def __init__(self, ctx, token0_quote, dq, db, tick_a, fee, vols, liq, wallet_base, wallet_quote):
+    def __init__(self, ctx, token0_quote, dq, db, tick_a, fee, vols, liq, wallet_base, wallet_quote, names=("QUO", "BAS")):
         import pandas as pd
         from demeter import Broker, TokenInfo, MarketInfo
         from demeter.uniswap import UniLpMarket, UniV3Pool, UniswapMarketStatus
 
         self.t0q = token0_quote
-        self.Q, self.B = TokenInfo("QUO", dq), TokenInfo("BAS", db)
+        self.Q, self.B = TokenInfo(names[0], dq), TokenInfo(names[1], db)
         self.pool = UniV3Pool(self.Q, self.B, fee, self.Q) if token0_quote else UniV3Pool(self.B, self.Q, fee, self.Q)
         self.actions = []
         self.broker = Broker(record_action_callback=self.actions.append)
